@@ -144,14 +144,14 @@ def scenario(n_clients, with_bg, answer_order, chooser, sync_timeout=2.0, timeou
                 try:
                     conn._async_request(consts.HANDLE_PING, (payload,), res)
                 except Exception as e:          # e.g. the connection ended before this request could be sent
-                    out["results"][i] = "EXC:" + type(e).__name__
+                    out["results"][i] = "EXC:" + ("EOFError" if isinstance(e, EOFError) else type(e).__name__)
                     out["return_time"][i] = S.now
                     return
                 res.set_expiry(sync_timeout if timeouts is None else timeouts[i])
                 try:
                     out["results"][i] = res.value
                 except Exception as e:
-                    out["results"][i] = "EXC:" + type(e).__name__
+                    out["results"][i] = "EXC:" + ("EOFError" if isinstance(e, EOFError) else type(e).__name__)
                 out["return_time"][i] = S.now
             return f
 
